@@ -40,9 +40,39 @@ def plan(tier, seed, batch):
     return [{"index": batch * 100000 + i, "seed": seed, "tier": tier} for i in range(n)]
 
 
+ABSORB = [[("PUSH", "0"), ("MUL", None)], [("PUSH", "0"), ("AND", None)], [("DUP1", None), ("XOR", None)], [("DUP1", None), ("SUB", None)],
+          [("PUSH", "1"), ("SWAP1", None), ("MOD", None)], [("PUSH", "0"), ("SWAP1", None), ("EXP", None)], [("DUP1", None), ("EQ", None)],
+          [("PUSH", "0"), ("SWAP1", None), ("DIV", None)], [("POP", None), ("PUSH", "0")], [("DUP1", None), ("GT", None)],
+          [("PUSH", "ffffffffffffffffffffffffffffffffffffffffffffffffffffffffffffffff"), ("OR", None)]]
+
+
+def bookkeeping_bait(rw):
+    """Blocks where a rule makes a *consumed stack input* useless (it then has to be popped: the discount bookkeeping is at stake),
+    and store-to-load forwarding patterns (the forwarded value has to survive the store: the stack bound is at stake)."""
+    items = []
+    for _ in range(rw.choice([1, 1, 2])):
+        k = rw.random()
+        if k < 0.5:
+            items += rw.choice(ABSORB)
+            items += rw.choice([[], [(rw.choice(["ADD", "SUB", "LT", "OR"]), None)], [("SWAP1", None)], [("POP", None)]])
+        else:
+            sp = rw.choice(["M", "S"])
+            addr = rw.choice([[("PUSH", "40")], [("PUSH", "0")], [("DUP2", None)], [("PUSH", "20")]])
+            if addr[0][0] == "DUP2":
+                items += [("DUP2", None), ("DUP2", None), (sp + "STORE", None), (sp + "LOAD", None)]
+            else:
+                items += addr + [(sp + "STORE", None)] + addr + [(sp + "LOAD", None)]
+            items += rw.choice([[], [("ADD", None)], [("DUP1", None)], [("SWAP1", None), ("POP", None)]])
+    return items
+
+
 def gen_blocks(rw, n):
     out = []
     for _ in range(n):
+        r = rw.random()
+        if r < 0.3:
+            out.append(bookkeeping_bait(rw))
+            continue
         r = rw.random()
         if r < 0.25:
             b = corpus.sample_blocks(rw, 1, max_len=12)[0]
@@ -69,6 +99,27 @@ def build(spec):
     flags += ["-solver", "z3"]
     return {"argv": flags, "blocks": [AJ.items_to_text(b, 2) for b in gen_blocks(rw, 5)], "peers": PEERS,
             "max_len": 10 if spec["tier"] == "quick" else 14, "greedy": True}
+
+
+def rule_signature(rules):
+    """Sorted set of the rule names that fired (constant evaluation = EVAL, memory rules by kind)."""
+    import re
+    names = set()
+    for r in rules:
+        r = str(r)
+        if r.startswith("EVAL"):
+            names.add("EVAL")
+        elif re.match(r"^[A-Z0-9]+\(", r):
+            names.add(r)
+        elif "useless" in r:
+            names.add("store-useless")
+        elif ")=" in r or "= (" in r:
+            names.add("load=store-forwarding")
+        elif "of mload" in r or "of sload" in r:
+            names.add("store-of-load")
+        else:
+            names.add("memory-other")
+    return "+".join(sorted(names)) or "no-rules"
 
 
 def evaluate(op, recs, summ):
@@ -112,7 +163,8 @@ def evaluate(op, recs, summ):
             # one more exhaustive search without the height bound tells which bound is to blame
             r6b = R6.search(sfs, b0, None)
             which = "max_sk_sz" if r6b["best"]["length"] is not None else "init_progr_len"
-            viols.append({"class": ["infeasible-bounds", which, "rules" if sfs.get("rules") else "no-rules"],
+            rk = rule_signature(sfs.get("rules", []))
+            viols.append({"class": ["infeasible-bounds", which, rk],
                           "detail": "%s: no sequence of length <= %d and height <= %d realizes the specification (brute force exhausted %d states); rules %s | sub-block %s | flags %s" % (
                               rec["key"], b0, bs, r6["states"], sfs.get("rules"), rec["sub_block"], " ".join(op["argv"])), "replay": rp})
         else:
